@@ -175,11 +175,19 @@ func guard(t *TaskCtx, f func() *Resp) (res *Resp) {
 				res = &Resp{Crashed: true, Trace: t.Trace}
 				return
 			}
+			if PanicIsRequestFailure != nil && PanicIsRequestFailure() {
+				// e.g. uuid.New() panics when the entropy source fails: the HTTP server would answer 500
+				res = &Resp{Crashed: true, Trace: t.Trace}
+				return
+			}
 			panic(r)
 		}
 	}()
 	return f()
 }
+
+// PanicIsRequestFailure is consulted when a request panics: the executor says whether an injected entropy failure explains it.
+var PanicIsRequestFailure func() bool
 
 // Consent describes what the simulated resource owner does at the authorization endpoint.
 type Consent struct {
